@@ -335,6 +335,15 @@ func Add(a, b *Term) *Term {
 	if bv, ok := b.IntVal(); ok && bv == 0 {
 		return a
 	}
+	// (x + c1) + c2  ->  x + (c1+c2)
+	if bv, ok := b.IntVal(); ok && a.Op == "+" && len(a.Args) == 2 && a.Sort == SInt {
+		if c1, ok2 := a.Args[1].IntVal(); ok2 {
+			return Add(a.Args[0], IntLit(c1+bv))
+		}
+	}
+	if bv, ok := b.IntVal(); ok && bv < 0 {
+		return Sub(a, IntLit(-bv))
+	}
 	return App("+", SInt, a, b)
 }
 
@@ -345,6 +354,17 @@ func Sub(a, b *Term) *Term {
 		}
 		if bv == 0 {
 			return a
+		}
+		// (x + c1) - c2  ->  x + (c1-c2)
+		if a.Op == "+" && len(a.Args) == 2 && a.Sort == SInt {
+			if c1, ok2 := a.Args[1].IntVal(); ok2 {
+				return Add(a.Args[0], IntLit(c1-bv))
+			}
+		}
+		if a.Op == "-" && len(a.Args) == 2 && a.Sort == SInt {
+			if c1, ok2 := a.Args[1].IntVal(); ok2 {
+				return Sub(a.Args[0], IntLit(c1+bv))
+			}
 		}
 	}
 	return App("-", SInt, a, b)
